@@ -6,7 +6,8 @@ PROPERTY = "C10"
 
 def tasks(tier):
     return (contract_tasks("contracts.scheduler", "C10", tier=tier) + contract_tasks("contracts.sim_process", "C10", tier=tier)
-            + contract_tasks("contracts.progress", "C10", tier=tier) + lemma_tasks("contracts.progress", "C10"))
+            + contract_tasks("contracts.progress", "C10", tier=tier) + lemma_tasks("contracts.progress", "C10")
+            + contract_tasks("contracts.connect", "C10", tier=tier))
 
 
 TRUSTED_BASE = TRUSTED_CORE
